@@ -49,3 +49,14 @@ Example C02_example :
   all_doneb s = true /\ map seen (ws s) = [[2; 3]; [0; 1]] /\
   res_find (tpe [1; 5; 2; 10; 3; 15] ops) (ws s) = Some (1, 5).
 Proof. vm_compute. repeat split. Qed.
+
+From OrxPar Require Import MachineIter MachineIterP MasterIter.
+
+(** the same over a by-value iterator source: ticket order = position order *)
+Theorem C02_find_iter : forall (V : Type) (src : list V) (ops : list (op V)) (r : Runner)
+  (ordered : bool) (sched : list nat),
+  runner_wf r -> iall_done (imrun r (tlen src ops) ordered (stop_of (tpar src ops) (tsrc src ops)) sched) ->
+  res_find (tpe src ops) (map wk (iws (imrun r (tlen src ops) ordered (stop_of (tpar src ops) (tsrc src ops)) sched)))
+  = find_in (tpe src ops) (seq 0 (tlen src ops)).
+Proof. intros V src ops r ordered sched Hw Hd. apply iter_find; assumption. Qed.
+Print Assumptions C02_find_iter.
